@@ -14,6 +14,7 @@ Atomic-step transition system. One `Thread` = one call of Save/Load/Stat/Remove 
                                                                                 lock+unlock of the mutex is one atomic step)
     if ctx.Err() != nil { return ctx.Err() }                       enter       (-> returning, inner backend NOT called)
     return be.Backend.X(...)                                       enter       (-> running, inner backend called)
+    (the caller cancels ctx at any time)                           cancel      (sets `cancelled` while the check is still ahead)
     (deferred) ReleaseToken                                        finish      (running/returning -> done)
 
 `Freeze` = freezeLock.Lock() (enabled iff the mutex is free), `Unfreeze` = freezeLock.Unlock().
@@ -32,7 +33,8 @@ structure Thread where
   isLock : Bool
   /-- `h.Valid() == nil` and (for Load) offset/length are non-negative -/
   valid : Bool
-  /-- `ctx.Err() != nil` when the wrapper checks it -/
+  /-- the call's context was cancelled before the wrapper's `ctx.Err()` check (from the start, or by a
+      `cancel` step while the call was still waiting for a token or parked at the freeze gate) -/
   cancelled : Bool
   /-- the wrapped backend's method has been invoked for this call -/
   called : Bool := false
@@ -54,6 +56,7 @@ inductive Act where
   | passGate (i : Nat)
   | enter (i : Nat)
   | finish (i : Nat)
+  | cancel (i : Nat)
   | freeze
   | unfreeze
 deriving DecidableEq, Repr
@@ -92,6 +95,14 @@ def step (s : Sys) : Act → Option Sys
       if t.pc = .running ∨ t.pc = .returning then
         some { setT s i { t with pc := .done } with tokens := if t.isLock then s.tokens else s.tokens - 1 }
       else none
+    | none => none
+  | .cancel i =>
+    -- the caller cancels the context of call `i` (e.g. tryRefreshStaleLock cancelling the lock context
+    -- while the backend is frozen). It matters only if the wrapper has not yet checked the context.
+    match s.threads[i]? with
+    | some t =>
+      if t.pc = .start ∨ t.pc = .haveToken ∨ t.pc = .passedGate then some (setT s i { t with cancelled := true })
+      else some s
     | none => none
   | .freeze => if s.frozen = false then some { s with frozen := true } else none
   | .unfreeze => if s.frozen = true then some { s with frozen := false } else none
